@@ -10,6 +10,7 @@ floating-point unit conversion does not move a printed digit is the magnitude bo
 import Iodata.Lemmas.Fmt.Xyz
 import Iodata.Lemmas.Fmt.Sdf
 import Iodata.Lemmas.Fmt.Pdb
+import Iodata.Lemmas.Fmt.PdbConect
 import Iodata.Gen.Layouts
 
 namespace Iodata.Props.C15
@@ -64,22 +65,28 @@ theorem sdf_generations (T : Tables) (L : Sdf.Layout) (hL : Sdf.LayoutOK L) (o o
 
 /-! ## PDB -/
 
-/-- PDB, partial (objects without bonds; the CONECT loop is not proved, see C02): the reloaded object,
-saved again, reloads as itself: `norm` is idempotent through `Loaded.obj` and stays in the domain. -/
-theorem pdb_norm_stable_partial (T : Tables) (L : Pdb.Layout) (hL : Pdb.LayoutOK L) (o : Pdb.Obj) (h : Pdb.Dom T L o) :
-    Pdb.norm L (Pdb.norm L o).obj = Pdb.norm L o ∧ Pdb.Dom T L (Pdb.norm L o).obj :=
-  ⟨Pdb.norm_idem L hL o h.2.2.2.2.2, Pdb.dom_norm T L hL o h⟩
+/-- PDB: the reloaded object (bonds de-duplicated and ordered by `normBonds`), saved again, reloads as itself:
+`norm` is idempotent through `Loaded.obj` — in particular `normBonds` is a fixed point of bonds → CONECT records
+→ bonds — and stays in the domain. -/
+theorem pdb_norm_stable (T : Tables) (L : Pdb.Layout) (hL : Pdb.LayoutOK L) (o : Pdb.Obj) (h : Pdb.DomB T L o) :
+    Pdb.norm L (Pdb.norm L o).obj = Pdb.norm L o ∧ Pdb.DomB T L (Pdb.norm L o).obj :=
+  ⟨Pdb.norm_idem_bonds L hL o, Pdb.domB_norm T L hL o h⟩
 
-/-- PDB, partial: generations 2 and 3 coincide (objects without bonds). -/
-theorem pdb_generations_partial (T : Tables) (L : Pdb.Layout) (hL : Pdb.LayoutOK L) (o : Pdb.Obj) (x₁ : Pdb.Loaded)
-    (h : Pdb.Dom T L o) (h₁ : Pdb.load T L (Pdb.dump T L o) = .ok x₁) :
+/-- PDB: the de-duplicated bond list is unchanged by a further save/reload, for every bond list. -/
+theorem pdb_bonds_stable (n : Nat) (bonds : List (Nat × Nat)) :
+    Pdb.normBonds n (Pdb.normBonds n bonds) = Pdb.normBonds n bonds :=
+  Pdb.normBonds_idem n bonds
+
+/-- PDB: generations 2 and 3 coincide, objects with bonds included. -/
+theorem pdb_generations (T : Tables) (L : Pdb.Layout) (hL : Pdb.LayoutOK L) (hC : Pdb.ConectOK L) (o : Pdb.Obj)
+    (x₁ : Pdb.Loaded) (h : Pdb.DomB T L o) (h₁ : Pdb.load T L (Pdb.dump T L o) = .ok x₁) :
     Pdb.load T L (Pdb.dump T L x₁.obj) = .ok x₁ ∧
     ∀ x₂, Pdb.load T L (Pdb.dump T L x₁.obj) = .ok x₂ → Pdb.dump T L x₂.obj = Pdb.dump T L x₁.obj := by
   have e : x₁ = Pdb.norm L o := by
-    have := Pdb.load_dump T L hL o h
+    have := Pdb.load_dump_bonds T L hL hC o h
     rw [this] at h₁; exact (Except.ok.inj h₁).symm
-  have h2 := Pdb.load_dump T L hL x₁.obj (e ▸ Pdb.dom_norm T L hL o h)
-  have hid : Pdb.norm L x₁.obj = x₁ := by rw [e]; exact Pdb.norm_idem L hL o h.2.2.2.2.2
+  have h2 := Pdb.load_dump_bonds T L hL hC x₁.obj (e ▸ Pdb.domB_norm T L hL o h)
+  have hid : Pdb.norm L x₁.obj = x₁ := by rw [e]; exact Pdb.norm_idem_bonds L hL o
   rw [hid] at h2
   refine ⟨h2, ?_⟩
   intro x₂ h3
